@@ -310,3 +310,143 @@ Corollary decode_encode_compressed_exact T vals outs w g :
   encode_compressed_ghost T vals = Ok (outs, w, g) ->
   decode_compressed T (length vals) w = Ok (outs, g, []).
 Proof. intros E. rewrite <- (app_nil_r w) at 1. apply decode_encode_compressed. exact E. Qed.
+
+(* ======================================================================== *)
+(* 3. the ghost encoder writes what the compressed encoder writes             *)
+(* ======================================================================== *)
+Definition Rprojc (g : gcstate) (e : estate) : Prop := gce g = e.
+
+Lemma gc_walk_proj :
+  forall ms, simf (Rio Rprojc) (walk_list (io_handlers gc_prims) io_add_link ms)
+                                (walk_list (io_handlers encc_prims) io_add_link ms).
+Proof.
+  apply io_walk_sim;
+    cbn [gc_prims encc_prims p_numeric p_string p_codeflag p_constant p_new_refval p_factor p_bitmap];
+    unfold simp, Rprojc.
+  - intros a b c g e g' <- E. unfold gc_numeric, encc_numeric, numeric_raws in *.
+    destruct (next_column (gce g)) as [[[col ae] e1]|]; cbn [bind] in *; [|discriminate].
+    match type of E with bind ?r _ = _ => destruct r as [raws|] end; cbn [bind] in *; [|discriminate].
+    destruct (col_dom_any a ae raws); cbn [negb] in E; [|discriminate].
+    destruct (enc_col_num a ae raws (e_w e1)) as [w|]; cbn [bind] in *; [|discriminate].
+    injection E as <-. eexists; split; reflexivity.
+  - intros a g e g' <- E. unfold gc_string, encc_string, string_vals in *.
+    destruct (next_column (gce g)) as [[[col ae] e1]|]; cbn [bind] in *; [|discriminate].
+    match type of E with bind ?r _ = _ => destruct r as [vs|] end; cbn [bind] in *; [|discriminate].
+    destruct (col_dom_str a ae vs); cbn [negb] in E; [|discriminate].
+    destruct (enc_col_str a ae vs (e_w e1)) as [w|]; cbn [bind] in *; [|discriminate].
+    injection E as <-. eexists; split; reflexivity.
+  - intros a b g e g' <- E. unfold gc_codeflag, encc_codeflag, codeflag_raws in *.
+    destruct (next_column (gce g)) as [[[col ae] e1]|]; cbn [bind] in *; [|discriminate].
+    match type of E with bind ?r _ = _ => destruct r as [raws|] end; cbn [bind] in *; [|discriminate].
+    destruct (col_dom_any a ae raws && _); cbn [negb] in E; [|discriminate].
+    destruct (enc_col_codeflag a ae raws (e_w e1)) as [w|]; cbn [bind] in *; [|discriminate].
+    injection E as <-. eexists; split; reflexivity.
+  - intros a g e g' <- E. unfold gc_constant, encc_constant in *.
+    destruct (next_column (gce g)) as [[[col ae] e1]|]; cbn [bind] in *; [|discriminate].
+    destruct col as [|v col']; [discriminate|].
+    destruct (ae && value_eq_int v a); [|discriminate]. injection E as <-. eexists; split; reflexivity.
+  - intros a g e z g' <- E. unfold gc_new_refval, encc_new_refval in *.
+    destruct (next_column (gce g)) as [[[col ae] e1]|]; cbn [bind] in *; [|discriminate].
+    destruct col as [|v col']; [discriminate|].
+    destruct v as [x| | | |]; try discriminate; try (destruct ae; discriminate).
+    destruct (enc_col_refval a ae (Some x) (e_w e1)) as [w|]; cbn [bind] in *; [|discriminate].
+    injection E as <- <-. eexists; split; reflexivity.
+  - intros g e n <- E. unfold gc_factor in E.
+    destruct (encc_factor (gce g)) as [m|]; cbn [bind] in E; [|discriminate].
+    destruct (factor_of_cols _) as [m'|]; cbn [bind] in E; [|discriminate].
+    destruct (N.eqb_spec m m'); [|discriminate]. injection E as <-. reflexivity.
+  - intros a g e bm <- E. unfold gc_bitmap in E.
+    destruct (encc_bitmap a (gce g)) as [m|]; cbn [bind] in E; [|discriminate].
+    destruct (bitmap_of_cols _ _) as [m'|]; cbn [bind] in E; [|discriminate].
+    destruct (list_eq_dec _ _ _); [|discriminate]. injection E as <-. reflexivity.
+Qed.
+
+Theorem encode_compressed_ghost_is_encode T vals outs w g :
+  encode_compressed_ghost T vals = Ok (outs, w, g) -> encode_compressed T vals = Ok (outs, w).
+Proof.
+  unfold encode_compressed_ghost, encode_compressed, run_compressed, run_template. intros E.
+  destruct (walk_list (io_handlers gc_prims) io_add_link T _) as [s1|] eqn:E1; cbn [bind] in E; [|discriminate].
+  injection E as <- <- <-.
+  assert (HR : Rst (Rio Rprojc) (mkWs regs0 (mkIo [] [] (mkGC (mkE [] vals 0 0) (repeat [] (length vals)))))
+                                (mkWs regs0 (mkIo [] [] (mkE [] vals 0 0)))).
+  { split; cbn; [reflexivity|]. repeat split. }
+  destruct (gc_walk_proj T _ _ _ HR E1) as (s2 & E2 & (Hr & Hdd & Hl & Hc)).
+  rewrite E2. cbn [bind]. rewrite Hdd, Hl, <- Hc. reflexivity.
+Qed.
+
+(* ======================================================================== *)
+(* 4. suffix independence of the compressed decoder                           *)
+(* ======================================================================== *)
+Lemma dec_col_refval_suffix w n r v r' t :
+  dec_col_refval w n r = Ok (v, r') -> dec_col_refval w n (r ++ t) = Ok (v, r' ++ t).
+Proof.
+  unfold dec_col_refval. intros E.
+  destruct (read_int w r) as [[mn r1]|] eqn:E1; cbn [bind] in E; [|discriminate].
+  rewrite (read_int_suffix _ _ _ _ t E1). cbn [bind].
+  destruct (read_uint NBITS_FOR_NBITS_DIFF r1) as [[nd r2]|] eqn:E2; cbn [bind] in E; [|discriminate].
+  rewrite (read_uint_suffix _ _ _ _ t E2). cbn [bind].
+  destruct (nd =? 0)%N; [|discriminate]. injection E as <- <-. reflexivity.
+Qed.
+
+Lemma Rsuffix_push t col d1 d2 r' :
+  Rsuffix t d1 d2 -> Rsuffix t (dc_push col d1 r') (dc_push col d2 (r' ++ t)).
+Proof. intros (Hr & Hv & Hc). unfold dc_push. repeat split; cbn; congruence. Qed.
+
+Lemma Rsuffix_nsub t d1 d2 : Rsuffix t d1 d2 -> nsub d2 = nsub d1.
+Proof. intros (Hr & Hv & Hc). unfold nsub. rewrite Hv. reflexivity. Qed.
+
+Lemma decc_walk_suffix t :
+  forall ms, simf (Rio (Rsuffix t)) (walk_list (io_handlers decc_prims) io_add_link ms)
+                                    (walk_list (io_handlers decc_prims) io_add_link ms).
+Proof.
+  apply io_walk_sim;
+    cbn [decc_prims p_numeric p_string p_codeflag p_constant p_new_refval p_factor p_bitmap]; unfold simp.
+  - intros a b c c1 c2 c1' HR E. unfold decc_numeric in *. pose proof HR as (Hr & Hv & Hc).
+    destruct (dec_col_num a (nsub c1) (d_r c1)) as [[col r1]|] eqn:E1; cbn [bind] in E; [|discriminate].
+    rewrite (Rsuffix_nsub _ _ _ HR), Hr, (dec_col_num_suffix _ _ _ _ _ t E1). cbn [bind].
+    injection E as <-. eexists; split; [reflexivity|apply Rsuffix_push; exact HR].
+  - intros a c1 c2 c1' HR E. unfold decc_string in *. pose proof HR as (Hr & Hv & Hc).
+    destruct (dec_col_str a (nsub c1) (d_r c1)) as [[col r1]|] eqn:E1; cbn [bind] in E; [|discriminate].
+    rewrite (Rsuffix_nsub _ _ _ HR), Hr, (dec_col_str_suffix _ _ _ _ _ t E1). cbn [bind].
+    injection E as <-. eexists; split; [reflexivity|apply Rsuffix_push; exact HR].
+  - intros a b c1 c2 c1' HR E. unfold decc_codeflag in *. pose proof HR as (Hr & Hv & Hc).
+    destruct (dec_col_codeflag a b (nsub c1) (d_r c1)) as [[col r1]|] eqn:E1; cbn [bind] in E; [|discriminate].
+    rewrite (Rsuffix_nsub _ _ _ HR), Hr, (dec_col_codeflag_suffix _ _ _ _ _ _ t E1). cbn [bind].
+    injection E as <-. eexists; split; [reflexivity|apply Rsuffix_push; exact HR].
+  - intros a c1 c2 c1' HR E. unfold decc_constant in *. pose proof HR as (Hr & Hv & Hc).
+    injection E as <-. rewrite (Rsuffix_nsub _ _ _ HR), Hr.
+    eexists; split; [reflexivity|apply Rsuffix_push; exact HR].
+  - intros a c1 c2 z c1' HR E. unfold decc_new_refval in *. pose proof HR as (Hr & Hv & Hc).
+    destruct (dec_col_refval a (nsub c1) (d_r c1)) as [[v r1]|] eqn:E1; cbn [bind] in E; [|discriminate].
+    rewrite (Rsuffix_nsub _ _ _ HR), Hr, (dec_col_refval_suffix _ _ _ _ _ t E1). cbn [bind].
+    injection E as <- <-. eexists; split; [reflexivity|apply Rsuffix_push; exact HR].
+  - intros c1 c2 n (Hr & Hv & Hc). rewrite !decc_factor_cols, Hv. auto.
+  - intros a c1 c2 bm (Hr & Hv & Hc). rewrite !decc_bitmap_cols, Hv. auto.
+Qed.
+
+(* Bits that follow the compressed data never influence its decoding. *)
+Theorem decode_compressed_suffix_independent T n b t outs vals rest :
+  decode_compressed T n b = Ok (outs, vals, rest) ->
+  decode_compressed T n (b ++ t) = Ok (outs, vals, rest ++ t).
+Proof.
+  unfold decode_compressed, run_compressed, run_template. intros E.
+  destruct (walk_list (io_handlers decc_prims) io_add_link T _) as [s1|] eqn:E1; cbn [bind] in E; [|discriminate].
+  injection E as <- <- <-.
+  assert (HR : Rst (Rio (Rsuffix t)) (mkWs regs0 (mkIo [] [] (mkD b (repeat [] n) 0)))
+                                     (mkWs regs0 (mkIo [] [] (mkD (b ++ t) (repeat [] n) 0)))).
+  { split; cbn; [reflexivity|]. repeat split. }
+  destruct (decc_walk_suffix t T _ _ _ HR E1) as (s2 & E2 & (Hr & Hdd & Hl & (Hrr & Hv & Hc))).
+  rewrite E2. cbn [bind]. rewrite Hdd, Hl, Hrr, Hv. reflexivity.
+Qed.
+
+(* No proper prefix of the compressed data bits decodes successfully. *)
+Corollary decode_compressed_prefix_fails T vals outs w g w' x :
+  encode_compressed_ghost T vals = Ok (outs, w, g) -> w = w' ++ x -> x <> [] ->
+  forall r, decode_compressed T (length vals) w' <> Ok r.
+Proof.
+  intros E -> Hx [[o v] rest] Ed.
+  pose proof (decode_compressed_suffix_independent _ _ _ x _ _ _ Ed) as E1.
+  pose proof (decode_encode_compressed _ _ _ _ _ [] E) as E2. rewrite app_nil_r in E2.
+  rewrite E1 in E2. injection E2 as _ _ Hr.
+  apply app_eq_nil in Hr as [_ Hx']. contradiction.
+Qed.
